@@ -493,7 +493,11 @@ func (t *Trans) applyContract(fr *Frame, c *Contract, cname string, sig *types.S
 		if srt, ok := t.P.ghostComps[comp]; ok {
 			t.env.Comp(comp, srt)
 			// the callee's exit update fixes the entry of comp at the given index
-			t.assume(fr.curReach, fmt.Sprintf("(= (select %s %s) %s)", fr.st.get(comp), post.expand(eu[1]), post.expand(eu[2])))
+			if eu[1].IsAtom() && eu[1].Atom == "-" {
+				t.assume(fr.curReach, fmt.Sprintf("(= %s %s)", fr.st.get(comp), post.expand(eu[2])))
+			} else {
+				t.assume(fr.curReach, fmt.Sprintf("(= (select %s %s) %s)", fr.st.get(comp), post.expand(eu[1]), post.expand(eu[2])))
+			}
 		}
 	}
 	for _, e := range c.Ensures {
